@@ -146,7 +146,7 @@ def insSorted {α} (le : α → α → Bool) : List α → List α
 
 /-- unique sinks of the valid loggers, in `LoggerManager` order (sorted by name = by gid for gid < 10) -/
 def activeSinks (s : BSt) : List Nat :=
-  let live := (s.lgs.filter (fun l => !l.erased && l.valid))
+  let live := (s.lgs.filter (fun l => !l.erased && (l.valid || s.cfg.flushInvalidatedLoggers)))
   let sorted := insSorted (fun a b => decide (a.gid ≤ b.gid)) live
   (sorted.flatMap (·.sinks)).eraseDups
 
